@@ -45,7 +45,8 @@ def gen_op(rng, alpha, step):
         return ["insert", rng.randint(-4, 5), rng.randrange(len(alpha))]
     if k == "extend":
         # the argument is a plain list or itself a NamedItemList (names computed in another name space)
-        return ["extend", [rng.randrange(len(alpha)) for _ in range(rng.randint(0, 3))]] + (["nil"] if rng.random() < 0.5 else [])
+        # ... or a one-shot iterable (a generator can be walked once only)
+        return ["extend", [rng.randrange(len(alpha)) for _ in range(rng.randint(0, 3))]] + rng.choice([[], [], ["nil"], ["nil"], ["iter"]])
     if k == "remove":
         return ["remove", rng.randrange(len(alpha))]
     if k == "pop":
@@ -62,7 +63,7 @@ def all_ops(alpha_n):
         ops.append(["insert", 0, i])
         ops.append(["insert", -1, i])
     ops += [["pop", -1], ["pop", 0], ["pop", 1], ["clear"], ["copy"], ["ccopy"], ["deepcopy"],
-            ["pickle"], ["extend", [0, 0]], ["extend", [1, 0]], ["extend", [1, 0], "nil"], ["copy", "keep"]]
+            ["pickle"], ["extend", [0, 0]], ["extend", [1, 0]], ["extend", [1, 0], "nil"], ["extend", [1, 0], "iter"], ["copy", "keep"]]
     return ops
 
 
@@ -158,7 +159,7 @@ def run_impl(alpha, ops, reserved):
                 nil.insert(o[1], objs[o[2]])
             elif k == "extend":
                 arg = [objs[i] for i in o[1]]
-                nil.extend(NamedItemList(arg) if o[-1] == "nil" else arg)
+                nil.extend(NamedItemList(arg) if o[-1] == "nil" else (x for x in arg) if o[-1] == "iter" else arg)
             elif k == "remove":
                 nil.remove(objs[o[1]])
             elif k == "pop":
